@@ -64,11 +64,11 @@ theorem files_step {s s' : Sys} {ev : Ev} (inv : InvS s) (hs : step s ev = some 
       · subst hj; rw [hf] at hb; cases hb; exact ⟨b.setPackAt e.pk LoadSt.missing, by simp, by simp⟩
       · exact ⟨b, by simpa [hj] using hb, rfl⟩
   | loadIdx k' gIx =>
-    obtain ⟨_, _, rfl | ⟨b0, st, _, hf, _, rfl⟩⟩ := inv_loadIdx hs
+    obtain ⟨_, _, rfl | ⟨b0, b1, _, hf, hid, rfl⟩⟩ := inv_loadIdx hs
     · exact same rfl
     · left
       by_cases hj : k = k'
-      · subst hj; rw [hf] at hb; cases hb; exact ⟨{ b with idx := st }, by simp, rfl⟩
+      · subst hj; rw [hf] at hb; cases hb; exact ⟨b1, by simp, hid⟩
       · exact ⟨b, by simpa [hj] using hb, rfl⟩
   | consBegin h => obtain ⟨_, rfl⟩ := inv_consBegin hs; exact same rfl
   | consSetGen k' =>
@@ -176,7 +176,7 @@ theorem safe_step {s s' : Sys} {ev : Ev} (inv : InvS s) (hs : step s ev = some s
     obtain ⟨i, b0, e, _, _, rfl | ⟨_, _, rfl⟩ | ⟨b', hre, hf, rfl | rfl | rfl⟩⟩ := inv_lp5 hs <;>
       exact hsafe.of_eq rfl rfl rfl
   | loadIdx k' gIx =>
-    obtain ⟨_, _, rfl | ⟨b0, st, _, hf, _, rfl⟩⟩ := inv_loadIdx hs <;> exact hsafe.of_eq rfl rfl rfl
+    obtain ⟨_, _, rfl | ⟨b0, b1, _, hf, _, rfl⟩⟩ := inv_loadIdx hs <;> exact hsafe.of_eq rfl rfl rfl
   | consBegin h =>
     obtain ⟨_, rfl⟩ := inv_consBegin hs
     intro c hc hp; cases hc; cases hp
